@@ -375,6 +375,7 @@ func (fr *Frame) contractCall(in *ssa.Call, callee *ssa.Function, c *Contract, a
 		}
 		vars[p.Name()] = g
 	}
+	ex.p.aliasParams(callee, vars)
 	fr.bindGhosts(c, name, vars, in)
 	before := ex.st.clone()
 	envPre := &Env{fr: fr, vars: vars, st: before, old: before, oldVars: vars}
@@ -584,6 +585,7 @@ func (fr *Frame) dynamicCall(in *ssa.Call) *GVal {
 		for i, p := range f.Params {
 			vars[p.Name()] = &GVal{T: fr.term(args[i]), Typ: p.Type()}
 		}
+		ex.p.aliasParams(f, vars)
 		fr.bindGhosts(c, "dyncall", vars, in)
 		envPre := &Env{fr: fr, vars: vars, st: ex.st, old: ex.st, oldVars: vars}
 		saved := fr.cur
